@@ -118,21 +118,21 @@ func (q *querier) blockRange(bestNum uint32) *logdb.Range {
 	rng := q.rng
 	top := int(bestNum) + 2
 	switch x := rng.Intn(100); {
-	case x < 30:
+	case x < 32:
 		return nil
-	case x < 60: // ordinary
+	case x < 66: // ordinary
 		a, b := rng.Intn(top), rng.Intn(top)
 		if a > b {
 			a, b = b, a
 		}
 		return &logdb.Range{From: uint32(a), To: uint32(b)}
-	case x < 70: // single height
+	case x < 76: // single height
 		a := uint32(rng.Intn(top))
 		return &logdb.Range{From: a, To: a}
-	case x < 80: // inverted
+	case x < 81: // inverted
 		a := 1 + rng.Intn(top)
 		return &logdb.Range{From: uint32(a), To: uint32(rng.Intn(a))}
-	case x < 87: // open end
+	case x < 90: // open end
 		return &logdb.Range{From: uint32(rng.Intn(top)), To: logdb.MaxBlockNumber}
 	case x < 94: // beyond the chain
 		return &logdb.Range{From: bestNum + 1 + uint32(rng.Intn(3)), To: bestNum + 5}
@@ -146,12 +146,38 @@ func (q *querier) blockRange(bestNum uint32) *logdb.Range {
 	}
 }
 
-func (q *querier) options() *logdb.Options {
+// options: n = size of the table the query runs on; offsets and limits spread over the whole table and just beyond
+func (q *querier) options(n int) *logdb.Options {
 	rng := q.rng
 	if rng.Intn(100) < 28 {
 		return nil
 	}
-	return &logdb.Options{Offset: pick(rng, []uint64{0, 0, 0, 1, 1, 2, 5, huge}), Limit: pick(rng, []uint64{0, 1, 1, 2, 3, 10, huge})}
+	o := &logdb.Options{}
+	switch x := rng.Intn(100); {
+	case x < 40:
+		o.Offset = 0
+	case x < 55:
+		o.Offset = uint64(1 + rng.Intn(2))
+	case x < 90:
+		o.Offset = uint64(rng.Intn(n + 3))
+	case x < 95:
+		o.Offset = uint64(n)
+	default:
+		o.Offset = huge
+	}
+	switch x := rng.Intn(100); {
+	case x < 6:
+		o.Limit = 0
+	case x < 30:
+		o.Limit = 1
+	case x < 60:
+		o.Limit = uint64(2 + rng.Intn(4))
+	case x < 93:
+		o.Limit = uint64(1 + rng.Intn(n+3))
+	default:
+		o.Limit = huge
+	}
+	return o
 }
 
 func (q *querier) order() logdb.Order { return pick(q.rng, []logdb.Order{"", logdb.ASC, logdb.DESC, logdb.DESC}) }
@@ -210,7 +236,11 @@ func (q *querier) run(ldb *logdb.LogDB, t tables, bestNum uint32, n int) ([]trac
 	var out []trace.Ev
 	ctx := context.Background()
 	for i := 0; i < n; i++ {
-		rg, od, op := q.blockRange(bestNum), q.order(), q.options()
+		size := len(t.evs)
+		if i%2 == 1 {
+			size = len(t.trs)
+		}
+		rg, od, op := q.blockRange(bestNum), q.order(), q.options(size)
 		ev := trace.Ev{"e": "Q", "range": rangeLog(rg), "order": string(od), "opt": optLog(op)}
 		var res []string
 		var err error
